@@ -157,6 +157,8 @@ fn run_scenario(sc: &serde_json::Value) -> serde_json::Value {
             budget_exceeded: false,
             deliver: Some(deliver),
             raw_flag: Some(Arc::clone(&s.flag)),
+            pending_mid: false,
+            skip_next_hash: false,
         })
     });
 
